@@ -189,6 +189,10 @@ func (g *gen) Program() string {
 	fmt.Fprintf(w, "func mkI(k int) I0 {\n\tswitch uint(k) %% %d {\n\tcase 0:\n\t\treturn T0{k, %d}\n\tcase 1:\n\t\treturn &T1{k}\n\tcase 2:\n\t\treturn T2(k)\n\t}\n\treturn nil\n}\n\n", 4+g.pick(4), g.pick(9))
 	w.WriteString("func esc(p *int) { gp = p }\n\nfunc poke(v int) {\n\tif gp != nil {\n\t\t*gp = v\n\t}\n}\n\nfunc peek() int {\n\tif gp != nil {\n\t\treturn *gp\n\t}\n\treturn -1\n}\n\n")
 	w.WriteString("func bump(p *int, d int) int {\n\t*p += d\n\treturn *p\n}\n\n")
+	w.WriteString("func iter(n int) func(func(int) bool) {\n\treturn func(yield func(int) bool) {\n\t\tfor i := 0; i < n; i++ {\n\t\t\tif !yield(i) {\n\t\t\t\temit(6, i)\n\t\t\t\treturn\n\t\t\t}\n\t\t}\n\t\temit(6, -1)\n\t}\n}\n\n")
+	w.WriteString("func iter2(xs []int) func(func(int, int) bool) {\n\treturn func(yield func(int, int) bool) {\n\t\tfor i, x := range xs {\n\t\t\tif !yield(i, x) {\n\t\t\t\treturn\n\t\t\t}\n\t\t}\n\t}\n}\n\n")
+	w.WriteString("func gmax[T int | int8 | uint8 | int32](a, b T) T {\n\tif a > b {\n\t\treturn a\n\t}\n\treturn b\n}\n\n")
+	w.WriteString("func gsum[T int | int8 | uint8 | int32](xs ...T) T {\n\tvar s T\n\tfor _, x := range xs {\n\t\ts += x\n\t}\n\treturn s\n}\n\n")
 	w.WriteString("func tr(k int) int {\n\temit(9, k)\n\treturn k\n}\n\n")
 	w.WriteString("func at(s []int, i int) int {\n\tif len(s) == 0 {\n\t\treturn 0\n\t}\n\treturn s[uint(i)%uint(len(s))]\n}\n\n")
 	w.WriteString("func sidx(s string, i int) byte {\n\tif len(s) == 0 {\n\t\treturn 0\n\t}\n\treturn s[uint(i)%uint(len(s))]\n}\n\n")
@@ -632,6 +636,13 @@ func (f *fgen) intE(t *ty, d int, plain bool) (string, bool) {
 		fn := "min"
 		if g.chance(50) {
 			fn = "max"
+		}
+		if (t.bits == 64 && t.name == "int" || t.name == "int8" || t.name == "uint8" || t.name == "int32") && g.chance(40) {
+			fn = "gmax"
+			if g.chance(40) {
+				fn = "gsum"
+			}
+			g.Feat["generic-call"]++
 		}
 		return fmt.Sprintf("%s(%s, %s)", fn, a, b), false
 	// ---- below: may panic / reads memory calls can change
@@ -1324,6 +1335,35 @@ func (f *fgen) forStmt() {
 
 func (f *fgen) rangeStmt() {
 	g := f.g
+	if g.chance(22) {
+		// range over an iterator function: the body becomes a synthetic function called by the iterator
+		g.Feat["range-func"]++
+		i := f.fresh("i")
+		if v := f.pickVar(false, func(v *vr) bool { return v.t == g.slInt && !v.appendable }); v != nil && g.chance(40) {
+			e := f.fresh("e")
+			f.withLabel(fmt.Sprintf("for %s, %s := range iter2(%s) {", i, e, v.name), func(l *label) {
+				f.push()
+				f.declare(&vr{name: i, t: g.tInt})
+				f.declare(&vr{name: e, t: g.tInt})
+				f.ind++
+				f.line("_, _ = %s, %s", i, e)
+				f.ind--
+				f.loopBody(l, 1+g.pick(3))
+				f.pop()
+			})
+			return
+		}
+		f.withLabel(fmt.Sprintf("for %s := range iter(%s) {", i, f.smallNat(2, false)), func(l *label) {
+			f.push()
+			f.declare(&vr{name: i, t: g.tInt})
+			f.ind++
+			f.line("_ = %s", i)
+			f.ind--
+			f.loopBody(l, 1+g.pick(3))
+			f.pop()
+		})
+		return
+	}
 	switch g.pick(6) {
 	case 0, 1: // range over int; the bound is evaluated once even if its operands change in the body
 		g.Feat["range-int"]++
